@@ -16,6 +16,9 @@ why={"C08":"repairing the writer means changing the version byte that existing t
      "C15":"the block's capacity accounting (prefix and checksum inside the block) is asserted byte-for-byte by existing tests; a repair changes every offset",
      "C20":"the encoders return 0x7F for NaN and the decoders read 0x7F as +Inf; the existing tests assert exactly that code (TestFP8E4M3_SpecialConversions / E5M2), so the repair would break the unedited suite",
      "C14":"records hold only (hash, heap id); telling colliding names apart needs a lookup of the stored name in the heap on every hash match — an interface change between index and heap",
+     "C15":"the writer grows heaps beyond one direct block in memory only (single-level indirect root, marked MVP in the code): WriteToFile serialises the header and one direct block, and both readers — structures.FractalHeap and the raw reader in core used for dense attributes — resolve a direct root only. Making such heaps persistent means writing the indirect block and every child block and implementing indirect traversal in both readers: a feature, not a small repair; refusing the growing insert instead would remove behaviour",
+     "C02":"scalars are written with a simple dataspace [1] by design (the code comments say so and the dataspace tests expect it); telling the two apart needs the scalar dataspace class in the writer and a different rule in the reader, which changes what reference-library files with shape (1,) attributes return. (heap-beyond-one-block: see C15)",
+     "C03":"listing a dense group needs a reader for dense link storage (link info message, fractal heap of link messages, name index) — a feature, not a small repair; the writer side is exercised by the library's own tests only through its internal structures",
      "C07":"the result of Read is one value per element of the extent, so its size is the extent's by construction; a sparse or compressed chunked dataset of the reference library legitimately has an extent far larger than its file, so no bound tied to the file size can be enforced without rejecting valid files — the limit is a policy decision (the library's is 1 TiB)",
      "C18":"the lazy state is shared between the loop goroutine and foreground calls without any lock; a repair is a locking design for WritableBTreeV2"}
 opn="| id | property | harness / label | what fails, and why it is recorded rather than repaired |\n|---|---|---|---|\n"
